@@ -25,7 +25,9 @@ RULE = ("same fault x injection-point enumeration as C05 plus ordered pairs of c
         "APIConnection object (wrapper installed at construction), whether CONNECTED was ever written, and graceful-initiation events "
         "(force_disconnect entry, disconnect entry with state, DisconnectRequest handed to process_packet with state). Oracle: count = 1 iff "
         "CONNECTED reached (judged once the connection is CLOSED), argument True if a certain graceful initiation precedes the call, False if none "
-        "of any kind precedes it, not judged when the only initiation is a disconnect() entered before CONNECTED. Distinct = trace signature")
+        "of any kind precedes it, not judged when the only initiation is a disconnect() entered before CONNECTED. The application's own callback "
+        "is distinct per session (tagged) and must be invoked exactly once with the same argument, including for sessions that were opened on the same "
+        "client object from inside the previous session's stop callback. Distinct = trace signature")
 
 
 def shard(ctx: Ctx) -> None:
@@ -33,5 +35,6 @@ def shard(ctx: Ctx) -> None:
     sweep.same_turn_pairs_sweep(ctx, PROP)
     sweep.stalled_connect_sweep(ctx, PROP)
     sweep.abandoned_disconnect_sweep(ctx, PROP)
+    sweep.reconnect_in_on_stop_sweep(ctx, PROP)
     kinds = ["force", "disconnect", "eof", "rst", "garbage", "bad_pb", "peer_disconnect", "sendfail", "writeraise", "silence", "cancel"]
     sweep.pair_sweep(ctx, PROP, 4000 if ctx.thorough else 250, kinds)
